@@ -519,8 +519,10 @@ def _parse_tensordot_axes_to_matmul(axes, shape_a, shape_b):
         else:
             # contracted index
             axa = axes_a[axes_b.index(axb)]
-            # check that the shapes match
-            if shape_a[axa] != shape_b[axb]:
+            # check that the shapes match (or can be broadcast)
+            if (shape_a[axa] != shape_b[axb]) and (
+                1 not in (shape_a[axa], shape_b[axb])
+            ):
                 raise ValueError(
                     f"Dimension mismatch between axes {axa} of {shape_a} and "
                     f"{axb} of {shape_b}: {shape_a[axa]} != {shape_b[axb]}."
